@@ -4,6 +4,7 @@ import RV.C06.PatchLemmas
 import RV.C06.CG
 import RV.C06.PatchTextLemmas
 import RV.C06.TrigLoopLemmas
+import RV.C06.HextTextLemmas
 /-
   C06 — property theorems (statements first, as `def … : Prop`, then the proofs).
 
@@ -157,6 +158,24 @@ def Statement_each_triple_one_block_trig_loop : Prop :=
     ((emitTrigLoop s).map (fun b => dest b.spell)).Nodup ∧
     (∀ b ∈ emitTrigLoop s, b.triples ≠ []) ∧
     (∀ fresh, Iso s.d (route .trig (emitTrigLoop s) fresh))
+
+
+/-! ### Round h — the text level of HexTuples (`HextText.lean`): statements -/
+
+/-- One row through `HextuplesSerializer._hex_line` (`json.dumps` of the six columns + newline) and back through
+    `json.loads` + `_parse_hextuple`: the same subject, predicate and graph (no graph = the default graph, spelled
+    as the empty string and as nothing else), the same object — except that a plain literal comes back typed
+    `xsd:string` (`normObj`; RDF 1.1 identifies the two, rdflib's `==` does not). -/
+def Statement_hext_row_roundtrip : Prop :=
+  ∀ (s : HNode) (p : RV.C16.Str) (o : HObj) (g : Option HNode),
+    s.Ok → p ≠ [] → o.Ok → (∀ n, g = some n → n.Ok) →
+    parseHexLine (hexLine s p o (ctxStr g)) = .ok ⟨s, p, normObj o, g⟩ ∧
+    (ctxStr g = [] ↔ g = none)
+
+/-- `json.loads` undoes `json.dumps` on any non-empty list of strings (all of Unicode, `ensure_ascii` escapes and
+    surrogate pairs included — on top of C16's `scanstring` theorem). -/
+def Statement_hext_json_array_roundtrip : Prop :=
+  ∀ (x : RV.C16.Str) (xs : List RV.C16.Str), loadsArr (dumpsArr (x :: xs) ++ ['\n']) = .ok ((x :: xs).map JV.str)
 
 /-! ### Proofs -/
 
@@ -375,6 +394,46 @@ theorem each_triple_one_block_trig_loop : Statement_each_triple_one_block_trig_l
     simp [blockOf] at hnil
     simp [hnil] at this
 
+
+/-! ### Round h — HexTuples rows: proofs -/
+
+theorem hext_json_array_roundtrip : Statement_hext_json_array_roundtrip := loadsArr_dumps
+
+theorem hext_row_roundtrip : Statement_hext_row_roundtrip := by
+  intro s p o g hs hp ho hg
+  constructor
+  · have hsn := noneIfEmpty_str (nodeStr_ne_nil hs)
+    have hpn := noneIfEmpty_str hp
+    have hctx := readCtx g hg
+    unfold parseHexLine hexLine
+    cases o with
+    | node n =>
+      cases n with
+      | iri x =>
+        simp only [hexFields, loadsArr_dumps, List.map_cons, List.map_nil, parseFields, hsn, hpn,
+          noneIfEmpty_str (show sGlobalId ≠ [] by decide), if_true, readSubject_nodeStr hs, hctx, normObj]
+      | bnode l =>
+        simp only [hexFields, loadsArr_dumps, List.map_cons, List.map_nil, parseFields, hsn, hpn,
+          noneIfEmpty_str (show sLocalId ≠ [] by decide), show sLocalId ≠ sGlobalId by decide, if_false, if_true,
+          readSubject_nodeStr hs, hctx, normObj, readBnodeLabel_nodeStr]
+    | plain lex =>
+      simp only [hexFields, loadsArr_dumps, List.map_cons, List.map_nil, parseFields, hsn, hpn,
+        noneIfEmpty_str (show sXsdString ≠ [] by decide), show sXsdString ≠ sGlobalId by decide,
+        show sXsdString ≠ sLocalId by decide, if_false, noneIfEmpty_nil, readSubject_nodeStr hs, hctx, normObj]
+    | lang lex l =>
+      simp only [hexFields, loadsArr_dumps, List.map_cons, List.map_nil, parseFields, hsn, hpn,
+        noneIfEmpty_str (show sLangString ≠ [] by decide), show sLangString ≠ sGlobalId by decide,
+        show sLangString ≠ sLocalId by decide, if_false, noneIfEmpty_str (show l ≠ [] from ho),
+        readSubject_nodeStr hs, hctx, normObj]
+    | typed lex dt =>
+      simp only [hexFields, loadsArr_dumps, List.map_cons, List.map_nil, parseFields, hsn, hpn,
+        noneIfEmpty_str ho.1, ho.2.1, ho.2.2, if_false, noneIfEmpty_nil, readSubject_nodeStr hs, hctx, normObj]
+  · cases g with
+    | none => simp [ctxStr]
+    | some n =>
+      simp only [ctxStr, reduceCtorEq, iff_false]
+      exact nodeStr_ne_nil (hg n rfl)
+
 /-! ### Non-vacuity: a dataset with a non-empty default graph, an IRI-named graph, a blank-node-named
     graph whose name is also a subject and an object elsewhere, a triple present in two graphs, a
     blank node shared across graphs, a registered empty graph, a graph listed twice -/
@@ -448,6 +507,14 @@ example : parseDoc [.comment, .cmd ['T', 'X'] .dot, .cmd ['A', 'A'] (.quad (.ang
     ([((.bnode 2, .iri 7, .lit 1), .bnode 3)], some .valueError) := by decide
 
 example : parseLine (.cmd ['A', 'D'] (.quad (.plain (.iri 1)) (.iri 7) (.plain (.lit 9)) .none)) = .err .parseError := by decide
+
+/-! ### Round h, non-vacuity: a hextuples row with a non-ASCII language literal in a blank-node-named graph -/
+
+example : (HNode.bnode "b1".toList).Ok ∧ (HObj.lang "é☃".toList "en".toList).Ok ∧ (HNode.iri "http://e/g".toList).Ok :=
+  ⟨trivial, by simp [HObj.Ok], by simp [HNode.Ok]⟩
+
+example : String.ofList (hexLine (.bnode "b1".toList) "h:p".toList (.lang "é\"".toList "en".toList) (ctxStr (some (.bnode "g".toList)))) =
+    "[\"_:b1\", \"h:p\", \"\\u00e9\\\"\", \"http://www.w3.org/1999/02/22-rdf-syntax-ns#langString\", \"en\", \"_:g\"]\n" := by decide
 
 /-! ### The defects of the pinned code (before the `fix:` commits), kept as regression witnesses -/
 
